@@ -484,6 +484,7 @@ type kExec struct {
 	syncAfter bool
 	extra     []*os.File
 	execFile  uintptr
+	cgroupFD  uintptr
 	args0     string
 }
 
@@ -501,7 +502,7 @@ func (k *kContainer) exec(ctx context.Context, e *kExec) (runner.Result, *kOut) 
 		a0 = e.args0
 	}
 	p := container.ExecveParam{Args: append([]string{a0}, e.script...), Env: []string{"PATH=/bin"}, Files: files, RLimits: e.rlimits,
-		Seccomp: e.filter, SyncFunc: e.syncFunc, SyncAfterExec: e.syncAfter, ExecFile: e.execFile}
+		Seccomp: e.filter, SyncFunc: e.syncFunc, SyncAfterExec: e.syncAfter, ExecFile: e.execFile, CgroupFD: e.cgroupFD}
 	res := k.env.Execve(ctx, p)
 	w.Close()
 	out.wait(10 * time.Second)
